@@ -131,6 +131,8 @@ type scnSpec struct {
 	Flavour string  // plain | race | unsafe
 	Share   float64 // share of the budget
 	Count   uint64  // fixed number of runs (enumerations); 0 = budget driven
+	CountKey string // ask the simulation binary for the size of the enumerated space (TestCounts)
+	MemLimitKB int  // ulimit -v for the worker processes (0 = none)
 }
 
 type checkSpec struct {
@@ -206,6 +208,12 @@ func runWorkers(bin string, sc scnSpec, sd uint64, budget time.Duration, tmp str
 					args = append(args, "-sim.parallel")
 				}
 				cmd := exec.Command(bin, args...)
+				if sc.MemLimitKB > 0 {
+					// a decoder that tries to allocate what a hostile length asks for
+					// must die in its own process, attributed to the case in flight
+					sh := fmt.Sprintf("ulimit -v %d; exec \"$0\" \"$@\"", sc.MemLimitKB)
+					cmd = exec.Command("sh", append([]string{"-c", sh, bin}, args...)...)
+				}
 				cmd.Env = append(os.Environ(), "GODEBUG=asyncpreemptoff=1")
 				if sc.Flavour == "race" {
 					cmd.Env = append(os.Environ(), "GORACE=halt_on_error=0 exitcode=0 log_path="+filepath.Join(tmp, fmt.Sprintf("race-%d", w)))
@@ -653,6 +661,9 @@ func cmdCheck(prop, tier string) int {
 			bins[fl] = build(tmp, fl)
 		}
 		b := time.Duration(float64(budget) * sc.Share)
+		if sc.CountKey != "" {
+			sc.Count = askCount(bins[fl], sc.CountKey)
+		}
 		scq := sc
 		if tier == "quick" && sc.Count > 20000 {
 			// quick tier of a large enumeration: budget-bounded seeded subset
@@ -819,6 +830,20 @@ func cmdCheck(prop, tier string) int {
 	}
 	fmt.Printf("%s %s: %d runs, %d distinct non-trivial schedules, %d violations, %.1fs\n", prop, tier, total.evals, len(total.nontrivial), reported, wall)
 	return exit
+}
+
+// askCount asks the simulation binary how large an enumerated case space is.
+func askCount(bin, key string) uint64 {
+	out, err := exec.Command(bin, "-test.run", "^TestCounts$").CombinedOutput()
+	if err != nil {
+		die(2, "TestCounts: %v\n%s", err, out)
+	}
+	m := regexp.MustCompile(key + `=(\d+)`).FindSubmatch(out)
+	if m == nil {
+		die(2, "TestCounts: no %s in %s", key, out)
+	}
+	n, _ := strconv.ParseUint(string(m[1]), 10, 64)
+	return n
 }
 
 func firstLine(s string) string {
